@@ -4,6 +4,9 @@
  * every public photutils callable is classified (covered by a recipe or listed
    as uncovered with a reason) and the registry names nothing that does not exist;
  * every recipe executes under (ndarray, clean) and at least one step completes;
+ * the geometry axis of C10: frames hold every kind of bad pixel, every (recipe,
+   geometry) runs, the base geometry is untouched, Background2D layouts are what
+   their names say and include view- and copy-producing block reshapes;
  * the snapshot comparison sees each kind of modification the property lists and
    does not flag a lazily filled cache;
  * the C15 helpers (homogeneity degree, leaf comparison, unit expectation).
@@ -48,6 +51,59 @@ for name in R.RECIPES:
     check(len(c.held) >= 1, f'recipe {name}: nothing watched')
     nsteps += len(c.steps)
 check(nsteps > 800, f'only {nsteps} steps in total')
+
+# -- geometry axis (C10) ---------------------------------------------------------------
+from mcphot.props import c10  # noqa: E402
+from mcphot.ref import registry_recipes as RR  # noqa: E402
+
+for g in R.FRAMES:
+    cg = R.Ctx('ndarray', 'clean', 0, geom=g)
+    check(cg.data().shape == cg.shape, f'frame {g}: data shape {cg.data().shape} != {cg.shape}')
+    if g != 'base':
+        for kind, n in c10.bad_pixels_inside(g, 0).items():
+            check(n >= 1, f'frame {g}: no pixel of kind {kind!r} inside the image')
+check(R.Ctx('ndarray', 'clean', 0, geom='tight').block_bbox() == (0, 9, 0, 9), 'tight frame: block is not the whole image')
+check(R.Ctx('ndarray', 'clean', 0, geom='fullwidth').block_bbox()[:2] == (0, 9) and R.Ctx('ndarray', 'clean', 0, geom='fullwidth').shape[1] == 9,
+      'fullwidth frame: block does not span every column')
+check(np.array_equal(R.scene('nonfinite', 0)['data'], R.scene('nonfinite', 0, extra=True)['data'], equal_nan=True)
+      and not np.array_equal(R.scene('masked', 0)['mask'], R.scene('masked', 0, extra=True)['mask']), 'extra pixels')
+# the base geometry is the scene C15 uses: no extra pixel, no frame
+cb = R.Ctx('ndarray', 'masked', 0)
+check(cb.region is None and cb.mask().sum() == len(R.ARG_MASK_PIX['masked']), 'base geometry changed')
+# every geometry of every recipe runs; geometries of one recipe are distinct cases
+# one-row / one-column cutouts that the function rejects (after its clean-up ran; raising steps are checked too)
+DEGENERATE_REJECTED = {('centroid_quadratic', 'col'), ('centroid_1dg', 'row'), ('centroid_1dg', 'col')}
+ngeom = 0
+for name, r in R.RECIPES.items():
+    check(r.geoms[0] == 'base' and len(set(r.geoms)) == len(r.geoms), f'recipe {name}: geometry alphabet')
+    if r.slow:
+        continue
+    shapes = set()
+    for g in r.geoms[1:]:
+        cg = R.run_recipe(name, 'ndarray', 'clean', 0, geom=g)
+        check(cg is not None and cg.steps, f'recipe {name}, geometry {g}: no steps')
+        if cg is not None:
+            check(any(st == 'ok' for _, st in cg.steps) or (name, g) in DEGENERATE_REJECTED,
+                  f'recipe {name}, geometry {g}: every step raises on the clean scene')
+            ngeom += 1
+    check(R.run_recipe(name, 'ndarray', 'clean', 0, geom='no such geometry') is None, 'unknown geometry accepted')
+check(ngeom > 250, f'only {ngeom} (recipe, geometry) pairs')
+# Background2D layouts: the box counts / remainders are what the names say, and the alphabet contains layouts for which
+# the block reshape of a C-contiguous image is a view of it (one column of boxes) as well as layouts for which it is a copy
+views = copies = 0
+for lay, (frame, box, edge) in RR.BKG_LAYOUTS.items():
+    shape = R.Ctx('ndarray', 'clean', 0, geom=frame).shape if isinstance(frame, str) else frame
+    ny, nx = shape[0] // box[0], shape[1] // box[1]
+    ry, rx = shape[0] - ny * box[0], shape[1] - nx * box[1]
+    check(f'boxes {ny}x{nx}, remainder {ry}x{rx}, {edge}' in lay, f'layout {lay!r}: really boxes {ny}x{nx}, remainder {ry}x{rx}')
+    img = np.zeros(shape)
+    core = img[:ny * box[0], :nx * box[1]].reshape(ny, box[0], nx, box[1]).swapaxes(1, 2).reshape(ny, nx, -1)
+    if np.shares_memory(core, img):
+        views += 1
+    else:
+        copies += 1
+check(views >= 16 and copies >= 32, f'Background2D layouts: {views} aliasing-prone, {copies} copying layouts')
+print(f'geometry axis: {ngeom} (recipe, geometry) pairs besides base; Background2D layouts {views} view / {copies} copy')
 
 # -- snapshot comparison -----------------------------------------------------------
 import astropy.units as u  # noqa: E402
@@ -123,6 +179,79 @@ check(c15.DOCUMENTED_UNIT.search('ApertureStats.sum|<value>') is not None, 'docu
 check(c15.DOCUMENTED_UNIT.search('ApertureStats.xcentroid|<value>') is None, 'documented-unit pattern (negative)')
 n = R.norm(QTable({'a': [1, 2], 'f': [1.0, 2.0] * u.Jy}))
 check(n['f'][2] == 'Jy' and n['a'][2] is None, 'norm(QTable)')
+
+# -- C15: dtype x byte-order axis, value domains -----------------------------------------
+for rep in R.C15_DTYPE_REPS:
+    dom = R.DOMAIN_OF_REP.get(rep, 'full')
+    for cond in ('clean', 'masked'):
+        cr = R.Ctx(rep, cond, 0, integer_scene=True, domain=dom)
+        c0 = R.Ctx('f8', cond, 0, integer_scene=True, domain=dom)
+        d, d0 = cr.data(offset=-20.0), c0.data(offset=-20.0)
+        check(d.dtype.str == R.DTYPE_OF_REP[rep], f'rep {rep}: data dtype {d.dtype.str}')
+        check(d0.dtype.str == '<f8' and np.array_equal(d.astype(float), d0), f'rep {rep}: does not hold the numbers of its baseline')
+        e, e0 = cr.error(), c0.error()
+        check(e.dtype.str == R.DTYPE_OF_REP[rep] and np.array_equal(e.astype(float), e0), f'rep {rep}: error array')
+        check(not cr.uncast, f'rep {rep}: image-like argument left float64: {cr.uncast}')
+check(set(np.dtype(v).kind + str(np.dtype(v).itemsize) for v in R.DTYPE_OF_REP.values())
+      == {'f8', 'f4', 'i1', 'i2', 'i4', 'i8', 'u1', 'u2', 'u4', 'u8'}, 'dtype alphabet')
+check(R.Ctx('f8', 'clean', 0, integer_scene=True).data(offset=-20.0).min() < 0, 'full domain has no negative pixel')
+check(R.Ctx('f8', 'clean', 0, integer_scene=True, domain='nonneg').data(offset=-20.0).min() == 0, 'nonneg domain')
+cb = R.Ctx('f8', 'clean', 0, integer_scene=True, domain='byte')
+db = cb.data(offset=-20.0)
+check(db.min() == 0 and 100 < db.max() <= 127 and np.array_equal(db, np.round(db)), f'byte domain: data range {db.min()}..{db.max()}')
+check((db == db.max()).sum() == 1, 'byte domain: the brightest pixel is not unique (saturated plateau: ties)')
+check(cb.error().max() ** 2 > 255, 'byte domain: squared errors fit into 8 bits (overflow not reachable)')
+check(abs(cb.q(50.0) - 50.0 * R.BYTE_SCALE) < 1e-12, 'byte domain: thresholds not scaled with the data')
+# an integer type that cannot hold a kernel leaves it float64 (and says so)
+ck = R.Ctx('u1', 'clean', 0, integer_scene=True, domain='byte')
+k = ck.array('kernel', np.array([[300.0, 1.0]]), kind='plain')
+check(k.dtype.kind == 'f' and ck.uncast == ['kernel'], 'kernel that does not fit was cast')
+# dtype@layout (thorough)
+cf = R.Ctx('be_u2@F', 'clean', 0, integer_scene=True, domain='nonneg').data()
+check(cf.dtype.str == '>u2' and cf.flags.f_contiguous and not cf.flags.c_contiguous, 'dtype@layout: Fortran')
+cs = R.Ctx('i2@strided', 'clean', 0, integer_scene=True).data()
+check(cs.dtype.str == '<i2' and not cs.flags.c_contiguous and cs.base is not None, 'dtype@layout: strided')
+check(c15.site_of('StarFinder[x]()', 'be_u2@F') == 'StarFinder():be_uint@F' and c15.site_of('a', 'i8') == 'a:int'
+      and c15.site_of('a', 'be') == 'a:be' and c15.site_of('a', 'u1') == 'a:uint', 'site classes')
+nq = R.Ctx('nddata_q', 'clean', 0).data(nddata_ok=True)
+check(isinstance(nq, NDData) and nq.unit == u.Jy and nq.uncertainty.unit == u.Jy, 'nddata_q: NDData with unit')
+
+# -- C15: one companion at a time ---------------------------------------------------------
+cq = R.run_recipe('ApertureStats', 'quantity', 'clean', 0, integer_scene=True)
+check(list(cq.slots) == ['error', 'local_bkg'], f'ApertureStats companions: {list(cq.slots)}')
+check(cq.step_slots['ApertureStats'] == {'error', 'local_bkg'}, 'constructor receives both companions')
+check(cq.step_slots['ApertureStats.sum'] == {'error', 'local_bkg'}, 'a member read carries the companions of the object')
+check(cq.step_slots['ApertureStats[no sigma_clip, center]'] == {'error'}, 'second constructor receives the error only')
+check(c15.solo_reps(cq) == [f'{m}:{s}' for s in ('error', 'local_bkg') for m in R.C15_SOLO], 'solo representations')
+for rep, want in (('solo_plain:local_bkg', (True, True, False)), ('solo_unit:local_bkg', (False, False, True)),
+                  ('other_unit:local_bkg', (True, True, True)), ('quantity', (True, True, True)), ('f8', (False, False, False))):
+    cc = R.run_recipe('ApertureStats', rep, 'clean', 0, integer_scene=True)
+    got = tuple(isinstance(cc.held[k], u.Quantity) for k in ('data', 'error', 'local_bkg'))
+    check(got == want, f'{rep}: unit-ful (data, error, local_bkg) = {got}')
+    if rep == 'other_unit:local_bkg':
+        lb = cc.held['local_bkg']
+        check(lb.unit == u.mJy and np.allclose(lb.value, [1000.0, 2000.0, 500.0]) and cc.held['error'].unit == u.Jy, 'other unit: mJy x 1000')
+cd = R.run_recipe('DAOStarFinder', 'quantity', 'clean', 0, integer_scene=True)
+check(cd.step_slots['DAOStarFinder()'] == {'threshold', 'peakmax'} and cd.step_slots['DAOStarFinder[xycoords]()'] == {'threshold'},
+      'a finder carries its threshold / peakmax into the call')
+cg = R.run_recipe('calc_total_error', 'other_unit:effective_gain', 'clean', 0, integer_scene=True)
+check(cg.held['effective_gain'].unit == u.electron / u.mJy and cg.held['bkg_error'].unit == u.Jy
+      and np.allclose(cg.held['effective_gain'].value[1], 2.0e-3), 'effective_gain in electron / mJy')
+cp = R.run_recipe('PSFPhotometry[finder, group_id, fixed fwhm free]', 'quantity', 'clean', 0, integer_scene=True)
+check(cp.step_slots['PSFPhotometry[finder]()'] == {'threshold', 'error'}
+      and cp.step_slots['PSFPhotometry[group_id]()'] == {'error', 'flux'}, f'PSFPhotometry companions: {cp.step_slots}')
+try:
+    cl = R.Ctx('quantity', 'clean', 0)
+    cl.q(5.0, 'threshold')
+    cl.step('x', lambda: None)
+    check(False, 'a scalar companion made outside a step and not attached went unnoticed')
+except AssertionError:
+    pass
+check(R.Raised(u.UnitsError('x')).is_rejection and R.Raised(u.UnitConversionError('x')).is_rejection
+      and R.Raised(ValueError('x')).is_rejection and not R.Raised(AttributeError('x')).is_rejection, 'rejection classes')
+a1 = ('num', np.array([1.0, 2.0]), 'Jy')
+check(c15.cmp_leaf(a1, c15.to_unit_of(a1, ('num', np.array([1000.0, 2000.0]), 'mJy')), 1e-12) is None, 'to_unit_of converts')
+check(c15.to_unit_of(a1, ('num', np.array([1.0, 2.0]), 'pix')) is None, 'to_unit_of: not convertible')
 
 print(f'registry self-test: {len(R.RECIPES)} recipes, {nsteps} steps, {len(fails)} failures')
 sys.exit(1 if fails else 0)
